@@ -11,20 +11,6 @@ import (
 	"github.com/WuKongIM/WuKongIM/pkg/verifkit"
 )
 
-// c07Channels builds 2..6 channels whose keys are prefixes of one another or
-// contain separator / NUL bytes (hostile to prefix-span key layouts).
-func c07Channels(n int) []*c07Chan {
-	keys := []struct {
-		key, id string
-		typ     uint8
-	}{{"1:a", "a", 1}, {"1:ab", "ab", 1}, {"1:a\x00", "a\x00", 1}, {"2:a", "a", 2}, {"1:", "", 1}, {"用户:1", "用户", 255}}
-	out := make([]*c07Chan, 0, n)
-	for i := 0; i < n; i++ {
-		out = append(out, c07NewChan(keys[i].key, keys[i].id, keys[i].typ))
-	}
-	return out
-}
-
 func c07RunHistory(r *verifkit.Run, t *testing.T, i int, family string, surfs []c07Surface, p c07Params, nchan int) *c07Driver {
 	rng := r.Rand(uint64(i), 7)
 	node := c07NewNode()
@@ -63,8 +49,11 @@ func TestVerifC07(t *testing.T) {
 	r.SetRule("Each case is one PRNG-generated history (appends in strict/server-allocated/trusted modes with right and wrong bases, follower applies with checkpoints, suffix truncations, bounded prefix trims, retention adoption, checkpoint stores, lease close/re-acquire, warm-cache eviction, whole-DB close+reopen, random bounded reads) over 2-6 channels on one engine, run on the typed ChannelLog, the compat Engine/ChannelStore and the channel/store Factory surfaces; every result is compared to a sequential reference model and every mutation is followed by a full audit. Non-trivial = some channel saw a truncation or trim, then an accepted append, then a DB reopen (with full audit). Distinct by surface family + collapsed op-kind sequence.")
 	r.Assume("tmpfs-backed t.TempDir(); fsync semantics are not part of this check (C09)")
 	r.Assume("trusted-contiguous and server-allocated batches respect their documented caller contract (no stored duplicates / allocator-fresh ids)")
-	n := r.N(120, 1800)
-	ops := r.N(70, 160)
+	r.Assume("typed ChannelLog surface, random body only: payloads are non-empty and TruncateFrom never cuts below the persisted RetainedMaxSeq; both shapes are legal inputs and are exercised by the isolated probe cases (signatures typed:probe:accepted-empty-payload-row-unreadable and typed:probe:truncate-after-trim-leo-resurrected-on-reopen) so that the random histories do not all end on the same two defects")
+	r.Assume("typed StoreRetentionState is a raw setter: only states a retention adopter would write (boundary at or below the log end, RetainedMaxSeq = max(old, LEO)) are stored")
+	r.Assume("factory-twin family: the in-memory double is not driven with a retention boundary beyond its log end (it cannot represent the sparse log between adoption and trim) nor with duplicate ids/pairs (it performs no uniqueness checks)")
+	n := r.N(120, 900)
+	ops := r.N(70, 130)
 	base := t.TempDir()
 	for i := 0; i < n; i++ {
 		if r.Skip(i) {
@@ -73,9 +62,43 @@ func TestVerifC07(t *testing.T) {
 		rng := r.Rand(uint64(i), 1)
 		dir := filepath.Join(base, fmt.Sprintf("h%d", i))
 		p := c07Params{Ops: ops, PairPool: 8 + rng.IntN(57), IDPool: 6 + rng.IntN(40), PCollide: 0.15, AllowDBOps: true, BigPayload: i%9 == 0, IDBase: 0}
-		family := "typed"
+		var surfs []c07Surface
+		var family string
+		switch i % 8 {
+		case 0, 1, 2:
+			family, surfs = "typed", []c07Surface{c07NewTyped(dir)}
+		case 3, 4, 5:
+			family, surfs = "compat", []c07Surface{c07NewCompat(dir)}
+		case 6:
+			family, surfs = "factorydb", []c07Surface{c07NewFactory(dir, false)}
+		default:
+			// same history on the MessageDB factory and the in-memory double
+			family, surfs = "factory-twin", []c07Surface{c07NewFactory(dir, false), c07NewFactory("", true)}
+		}
 		r.BeginCase(i, family)
-		c07RunHistory(r, t, i, family, []c07Surface{c07NewTyped(dir)}, p, 2+rng.IntN(5))
+		c07RunHistory(r, t, i, family, surfs, p, 2+rng.IntN(5))
+		os.RemoveAll(dir)
+	}
+	// isolated probes for the two typed-API input shapes the random typed body avoids
+	np := r.N(6, 40)
+	for k := 0; k < np; k++ {
+		i := n + k
+		if r.Skip(i) {
+			continue
+		}
+		rng := r.Rand(uint64(i), 2)
+		dir := filepath.Join(base, fmt.Sprintf("p%d", i))
+		switch k % 3 {
+		case 0:
+			r.BeginCase(i, "probe typed empty payload (Append)")
+			c07ProbeTypedEmptyPayload(r, rng, dir, false)
+		case 1:
+			r.BeginCase(i, "probe typed empty payload (ApplyFetch)")
+			c07ProbeTypedEmptyPayload(r, rng, dir, true)
+		default:
+			r.BeginCase(i, "probe typed truncate below LEO floor after trim, reopen")
+			c07ProbeTypedTruncateAfterTrim(r, rng, dir)
+		}
 		os.RemoveAll(dir)
 	}
 }
